@@ -51,6 +51,9 @@ COMPONENTS = {
              "HTTP client (sim.net.RawPeer)", "reference reader (ref/http_request.py)"],
 }
 ASSUMPTIONS = [
+    "a delivery that spins for >10 s of real time inside one loop callback (no yield, so the "
+    "iteration cap cannot see it) is reported as run.cpu_hang via a SIGALRM safety net; the net "
+    "never fires in runs that yield",
     "exactly-at-limit is accepted (documented 'maximum amount')",
     "header block size = bytes from the end of the previous message through the blank line "
     "(leading empty lines, request line, fields, all CRLFs), see module docstring",
